@@ -318,6 +318,9 @@ func (c *stepCheck) checkStop(hung bool) {
 		}
 		return
 	}
+	if c.ar.proc.Signaled == "panic" {
+		return // reported as a panic violation already
+	}
 	if c.ar.proc.Signaled != "" && c.ar.proc.Signaled != "teardown" && c.cancelSeenSeq == 0 {
 		bump(c.out, "agent_killed_by_early_signal")
 		return
@@ -467,7 +470,9 @@ func (c *stepCheck) checkStop(hung bool) {
 			}
 		}
 		killed := r.Signaled == "killed"
-		endedSoon := r.EndSeq != 0 && r.EndAt-t0 <= 150*time.Millisecond
+		// a seeded stall (<= 7 s) may have been in flight in the signalling path when the stop took
+		// effect; only a child that stayed alive clearly longer than that counts as never signalled
+		endedSoon := r.EndSeq != 0 && r.EndAt-t0 <= 8*time.Second
 		if !got && !killed && !endedSoon {
 			disc := "running-child"
 			if spawnAt[r.Pid] >= t0-5*time.Millisecond || t0-r.StartAt < 5*time.Millisecond {
